@@ -13,7 +13,7 @@ m = {
     "hooks": {
         "guard": "verif",
         "enable": "none needed: harnesses are injected with a go/packages overlay (engine) and go build -overlay (native replay); /repo carries no hook",
-        "baseline_off_cmd": "cd /repo && go test -vet=off -count=1 ./... && cd tests && go test -vet=off -count=1 ./...",
+        "baseline_off_cmd": "for m in $(cat /w/out/gomods.txt); do MF=$(cd /repo/$m && . /w/out/goenv.sh && gomodflag); (cd /repo/$m && go test $MF -json -vet=off -count=1 -timeout 25m ./...); done",
         "source_commits": [],
         "add_only": True,
     },
@@ -24,7 +24,7 @@ m = {
     }],
     "checks": [],
     "not_applicable": [],
-    "notes": "Each check regenerates its encoding from /repo's working tree. Exit 2 = machinery error (no verdict).",
+    "notes": "Each check re-loads /repo's working tree with go/packages, rebuilds the SSA and regenerates every SMT query from it. Exit 0 = every query inside the bounds discharged (KNOWN-FINDING lines for findings listed in known_findings.txt); exit 1 = VIOLATION lines (replay-confirmed); exit 2 = machinery error, no verdict. tools/selftest.py validates the encoder (engine vs native on the recorded sample paths); tools/crosscheck.py re-submits deciding queries to cvc5 and z3 5.1 (automatic in the thorough tier). /repo carries no hooks: harnesses are injected by overlay; the only commits to /repo are fix: repairs listed in known_findings.txt.",
 }
 for pid in ALL:
     if pid in CHECKS:
@@ -34,7 +34,7 @@ for pid in ALL:
             "quick_cmd": "python3 check.py %s quick" % pid,
             "thorough_cmd": "python3 check.py %s thorough" % pid,
             "evidence_file": "evidence/%s.json" % pid,
-            "replay_cmd_template": "bin/vreplay-%s-slog {path}" % pid,
+            "replay_cmd_template": "cd /tmp && HOME=/nonexistent-home /verif/bin/vreplay-%s-%s {path}   (built by the check from /repo's working tree; prints VFAIL <label> / VPANIC)" % (pid, "times" if pid == "C20" else "slog"),
             "engine": "gosym",
             "level_claimed": {
                 "category": "other",
